@@ -113,6 +113,10 @@ func VerifRepeatWithCache() {
 	vK = 1
 	vMinLen = 1
 	ops := vReadmeOps()
+	if n := verifParam("pairops", 0); n > 0 && n < len(ops) {
+		// every ordered pair of the first n operations (the list has grown; all pairs of all of them is the thorough tier)
+		ops = ops[:n]
+	}
 	bi := verifChoice("B", len(ops))
 	ai := verifChoice("A", len(ops))
 	A, B := ops[ai], ops[bi]
